@@ -2,8 +2,9 @@
 // real acceptor over loopback TCP through the recording proxy.
 
 enum AcCmd {
-    /// send(&Pdu::PData) whose encoding is `n` bytes long, payload bytes = marker
-    Send(usize, u8),
+    /// send(&Pdu::PData) whose encoding is `n` bytes long, payload bytes = marker;
+    /// fragment lengths of the PDVs (empty: one PDV with everything)
+    Send(usize, u8, Vec<usize>),
     /// send_pdata: write `n` payload bytes (= marker) and finish
     Pdata(usize, u8),
     /// receive one PDU
@@ -13,10 +14,25 @@ enum AcCmd {
     Done,
 }
 
-fn pdata_pdu(ctx: u8, total: usize, marker: u8) -> Pdu {
-    // 6 bytes PDU header + 6 bytes PDV header + data
+fn pdata_pdu(ctx: u8, total: usize, marker: u8, pdvs: &[usize]) -> Pdu {
+    if pdvs.is_empty() {
+        // 6 bytes PDU header + 6 bytes PDV header + data
+        return Pdu::PData {
+            data: vec![PDataValue { presentation_context_id: ctx, value_type: PDataValueType::Data, is_last: true, data: vec![marker; total.saturating_sub(12)] }],
+        };
+    }
+    // several PDVs in one PDU: command and data fragments alternate, as in DIMSE traffic
     Pdu::PData {
-        data: vec![PDataValue { presentation_context_id: ctx, value_type: PDataValueType::Data, is_last: true, data: vec![marker; total.saturating_sub(12)] }],
+        data: pdvs
+            .iter()
+            .enumerate()
+            .map(|(i, &len)| PDataValue {
+                presentation_context_id: ctx,
+                value_type: if i % 2 == 0 { PDataValueType::Command } else { PDataValueType::Data },
+                is_last: true,
+                data: vec![marker; len],
+            })
+            .collect(),
     }
 }
 
@@ -28,8 +44,8 @@ fn send_result(r: Result<(), dicom_ul::association::Error>) -> String {
     }
 }
 
-fn do_send<A: SyncAssociation<TcpStream>>(a: &mut A, ctx: u8, n: usize, marker: u8) -> String {
-    match catch(|| SyncAssociation::send(a, &pdata_pdu(ctx, n, marker))) {
+fn do_send<A: SyncAssociation<TcpStream>>(a: &mut A, ctx: u8, n: usize, marker: u8, pdvs: &[usize]) -> String {
+    match catch(|| SyncAssociation::send(a, &pdata_pdu(ctx, n, marker, pdvs))) {
         Ok(r) => send_result(r),
         Err(p) => format!("panic:{p}"),
     }
@@ -74,7 +90,7 @@ fn do_recv_last<A: SyncAssociation<TcpStream>>(a: &mut A) -> String {
 
 /// One end of an established association, sync or async API behind the same calls.
 trait Endpoint {
-    fn send(&mut self, ctx: u8, n: usize, marker: u8) -> String;
+    fn send(&mut self, ctx: u8, n: usize, marker: u8, pdvs: &[usize]) -> String;
     fn pdata(&mut self, ctx: u8, n: usize, marker: u8) -> String;
     fn recv1(&mut self) -> String;
     fn recv_last(&mut self) -> String;
@@ -83,8 +99,8 @@ trait Endpoint {
 
 struct SyncEp<A>(A);
 impl<A: SyncAssociation<TcpStream>> Endpoint for SyncEp<A> {
-    fn send(&mut self, ctx: u8, n: usize, marker: u8) -> String {
-        do_send(&mut self.0, ctx, n, marker)
+    fn send(&mut self, ctx: u8, n: usize, marker: u8, pdvs: &[usize]) -> String {
+        do_send(&mut self.0, ctx, n, marker, pdvs)
     }
     fn pdata(&mut self, ctx: u8, n: usize, marker: u8) -> String {
         do_pdata(&mut self.0, ctx, n, marker)
@@ -105,10 +121,10 @@ struct AsyncEp<A> {
     a: Option<A>,
 }
 impl<A: dicom_ul::association::AsyncAssociation<tokio::net::TcpStream> + Send> Endpoint for AsyncEp<A> {
-    fn send(&mut self, ctx: u8, n: usize, marker: u8) -> String {
+    fn send(&mut self, ctx: u8, n: usize, marker: u8, pdvs: &[usize]) -> String {
         use dicom_ul::association::AsyncAssociation as AA;
         let a = self.a.as_mut().unwrap();
-        let pdu = pdata_pdu(ctx, n, marker);
+        let pdu = pdata_pdu(ctx, n, marker, pdvs);
         match catch(|| self.rt.block_on(AA::send(a, &pdu))) {
             Ok(r) => send_result(r),
             Err(p) => format!("panic:{p}"),
@@ -240,7 +256,7 @@ fn acceptor_case<A: AccessControl>(opts: ServerAssociationOptions<'static, A, De
     };
     while let Ok(c) = cmd_rx.recv() {
         let r = match c {
-            AcCmd::Send(n, m) => ep.send(ctx, n, m),
+            AcCmd::Send(n, m, pdvs) => ep.send(ctx, n, m, &pdvs),
             AcCmd::Pdata(n, m) => ep.pdata(ctx, n, m),
             AcCmd::Recv1 => ep.recv1(),
             AcCmd::RecvLast => ep.recv_last(),
@@ -375,12 +391,13 @@ fn run_c29_case(c: &Value, selftest: bool, is_async: bool) -> (Vec<Value>, Vec<V
                 let n = u32_of(&st["n"]).unwrap() as usize;
                 let rq_side = j_str(&st["side"]) == "rq";
                 let is_send = j_str(&st["via"]) == "send";
+                let pdvs: Vec<usize> = st.get("pdvs").map(|v| j_arr(v).iter().map(j_usize).collect()).unwrap_or_default();
                 let (ret, recv) = if is_send {
                     // a single PDU fits the socket buffers: send first, receive only if it went out
                     let ret = if rq_side {
-                        a.send(ctx, n, marker)
+                        a.send(ctx, n, marker, &pdvs)
                     } else {
-                        let _ = cmd_tx.send(AcCmd::Send(n, marker));
+                        let _ = cmd_tx.send(AcCmd::Send(n, marker, pdvs.clone()));
                         res_rx.recv_timeout(Duration::from_secs(30)).unwrap_or("err:acceptor silent".into())
                     };
                     let recv = if ret == "ok" {
@@ -407,10 +424,10 @@ fn run_c29_case(c: &Value, selftest: bool, is_async: bool) -> (Vec<Value>, Vec<V
                 };
                 let allowed = st["allowed"].as_bool().unwrap();
                 if (ret == "ok") != allowed {
-                    mism.push(json!({"what": if allowed { format!("{} of a PDU within the peer's maximum fails", j_str(&st["via"])) } else { "over-long send is not rejected locally".to_string() },
+                    mism.push(json!({"what": if allowed { format!("{} of a PDU within the peer's maximum fails", j_str(&st["via"])) } else if pdvs.len() > 1 { "over-long send of a PDU with several PDVs is not rejected locally".to_string() } else { "over-long send is not rejected locally".to_string() },
                                      "case": c, "step": st, "ret": ret}));
                 }
-                step_events.push((marker, json!({"ev": "send", "side": st["side"], "via": st["via"], "n": st["n"], "ret": ret, "recv": recv})));
+                step_events.push((marker, json!({"ev": "send", "side": st["side"], "via": st["via"], "n": st["n"], "pdvs": pdvs, "ret": ret, "recv": recv})));
             }
         }
     }
@@ -459,7 +476,7 @@ fn run_c29_case(c: &Value, selftest: bool, is_async: bool) -> (Vec<Value>, Vec<V
         // P-DATA on the wire that belongs to no recorded call: shown to the validator as a
         // call that reported nothing
         for ((side, _m), lens) in wire {
-            ev.push(json!({"ev": "send", "side": side, "via": "send", "n": [65535, 65535], "ret": "unattributed", "recv": "none", "wire": lens}));
+            ev.push(json!({"ev": "send", "side": side, "via": "send", "n": [65535, 65535], "pdvs": [], "ret": "unattributed", "recv": "none", "wire": lens}));
         }
     }
     (ev, mism)
